@@ -70,7 +70,7 @@ PROPS = {
     "C14": dict(functions=PY_PRINT + [B + "_shape_info", TP + "method"], lemmas=[], level="other",
                 explanation="only the text of the shape prologue (_shape_info) is proved for all inputs; elementwise printing is decided on "
                             "bounded instances of the printer overrides and by the bounded batch oracle"),
-    "C16": dict(functions=["gotranx.atoms.remove_singularities", "gotranx.atoms.Singularity.is_infinite", T + "Conditional"], lemmas=L.STAB + L.C16L),
+    "C16": dict(functions=["gotranx.atoms.remove_singularities", "gotranx.atoms.Singularity.is_infinite", "gotranx.atoms.Assignment.singularities", T + "Conditional"], lemmas=L.STAB + L.C16L),
     "C17": dict(functions=["gotranx.transformer.get_unit_and_comment_from_assignment", "gotranx.transformer.TreeToODE.ode"], lemmas=[]),
     "C18": dict(functions=[G + "ode2py", G + "ode2c", G + "convert", G + "gotran2py.main", G + "gotran2c.main",
                            G + "gotran2py.get_code", G + "gotran2c.get_code", U + "add_schemes", U + "validate_scheme"], lemmas=[]),
